@@ -133,7 +133,12 @@ GroupText(line, r, g) == SubSeq(line, r[2 * g + 1] + 1, r[2 * g + 2])
 
 -----------------------------------------------------------------------------
 (* Ignore-case.                                                                 *)
-IsASCII(s)  == \A i \in 1..Len(s) : s[i] < 128
+\* "ASCII text" for the exact ignore-case law, taken as widely as the law is certain: a text WITHOUT ANY UTF-8 LEAD BYTE
+\* (0xC2..0xF4) holds no valid non-ASCII character - its bytes >= 0x80 (stray continuation bytes, 0xC0, 0xC1, 0xF5..0xFF)
+\* are invalid wherever they stand, no case folding of any kind relates two different ones, so such a byte matches only
+\* itself and the result is the case-sensitive one on the (ASCII-)lower-cased texts.  Texts with lead bytes may hold
+\* letters whose folding the property leaves open.
+IsASCII(s)  == \A i \in 1..Len(s) : s[i] < 194 \/ s[i] > 244
 PatASCII(p) == IsASCII(p.prefix) /\ \A i \in 1..Len(p.tokens) : IsASCII(p.tokens[i].until)
 
 \* the pattern with lower-cased literals (token names are never folded)
